@@ -20,7 +20,7 @@ RULE = ('targets with generated signatures (positional-only, positional-or-keywo
         'distinct = hash of the case')
 BUDGET = {'quick': (4, 700), 'thorough': (16, 12000)}
 ASSUMPTIONS = ['one case in eight also runs two fixed documents: a target name bound to another function between two builds, and builtin targets without an introspectable signature given gap-free positional arguments',
-               'gap indices landing on keyword-only / **kwargs parameters, a string equal to the current target and call<->bind kind changes are not generated',
+               'a string equal to the current target and call<->bind kind changes are not generated',
                'argument values are scalars (nested argument mappings merge by the ordinary rules)']
 
 VALS = st.one_of(st.integers(0, 9), st.sampled_from(['s', None, True, 2.5]))
@@ -58,11 +58,12 @@ def _args(draw, signame):
         keys += [i for i in range(prefix + 1, required)]
     keys += list(range(prefix))
     for _ in range(draw(st.integers(0, 2))):
-        g = draw(st.integers(prefix + 1, max(prefix + 1, npos + 1)))
-        # gaps landing on keyword-only/**kw parameters are outside the statement: allowed range is < npos, or beyond the signature
-        if g < npos or g >= npos + (0 if va else ko) + (0 if not vk or va else 1) or va:
-            if g not in keys:
-                keys.append(g)
+        # (also indices that land on keyword-only / **kwargs parameters, which are not positional parameters: "beyond the signature")
+        g = draw(st.integers(prefix + 1, max(prefix + 1, npos + (ko + 2 if draw(st.integers(0, 7)) == 0 else 1))))
+        if g not in keys:
+            keys.append(g)
+    if draw(st.integers(0, 24)) == 0:
+        keys.append(draw(st.sampled_from([-1, -1, -2])))        # positions do not count from the end of the signature
     # string keys
     pool = names + (['zz', 'extra'] if vk or draw(st.integers(0, 5)) == 0 else [])
     if pool:
@@ -254,7 +255,7 @@ def bind(target, args):
         i += 1
     by_name = {}
     for idx, v in ints.items():
-        if idx >= len(names):
+        if idx < 0 or idx >= len(names):
             raise BindError(f'index {idx} beyond the signature')
         by_name[names[idx]] = v
     if set(by_name) & set(kws):
@@ -309,14 +310,15 @@ def run_case(case):
     for s in case['steps']:
         labels.add('step=' + s['what'] + ('-merge' if s.get('merge') else ''))
     nontrivial = len(case['steps']) >= 2
-    # skip what the statement leaves open: gaps landing on keyword-only / **kw parameters (only reachable after merges)
     ints = sorted(k for k in args if isinstance(k, int))
     prefix = 0
     while prefix in ints:
         prefix += 1
     gaps = [k for k in ints if k >= prefix]
     if any(po + pk <= g for g in gaps) and not va and (ko or vk):
-        return Outcome(labels=['skip-gap-on-kwonly'])
+        labels.add('gap-index-on-keyword-only-or-**kwargs')
+    if any(k < 0 for k in ints):
+        labels.add('negative-index')
     try:
         pos, kw = bind(target_name, args)
         if gaps:
